@@ -612,6 +612,7 @@ static void check_handles(void)
   }
 }
 
+#ifdef WIN_EXTRA   // second binary: calls more internal functions (process_wait, redirect_* ...) than C18 needs
 // ---- redirect.windows.c at the Win32 boundary (Windows half of C10: which object, which direction)
 static HANDLE std_handles[3];          // what GetStdHandle hands out for in/out/err in this case
 static DWORD rec_std_id[4], rec_cf_access, rec_cf_share, rec_cf_disp;
@@ -748,6 +749,8 @@ static void check_life(void)
   }
 }
 
+#endif  // WIN_EXTRA
+
 static long mt_reps, mt_starts, mt_viol;
 static pthread_mutex_t mt_out = PTHREAD_MUTEX_INITIALIZER;
 static void *mt_thread(void *arg)
@@ -803,6 +806,7 @@ int main(int argc, char **argv)
     printf("H\t%ld\t%ld\n", __atomic_load_n(&mt_starts, __ATOMIC_RELAXED), __atomic_load_n(&mt_viol, __ATOMIC_RELAXED));
     return mt_viol ? 1 : 0;
   }
+#ifdef WIN_EXTRA
   if (argc >= 6 && !strcmp(argv[1], "--redirect")) {
     long w = atol(argv[2]), nw = atol(argv[3]);
     rs = (uint64_t) atol(argv[5]) * 0x9E3779B97F4A7C15ULL + (uint64_t) w * 313 + 9;
@@ -819,6 +823,7 @@ int main(int argc, char **argv)
     printf("H\t%ld\t%ld\n", st_life_cases, st_viol);
     return st_viol ? 1 : 0;
   }
+#endif  // WIN_EXTRA
   if (argc >= 6 && !strcmp(argv[1], "--handles")) {
     long w = atol(argv[2]), nw = atol(argv[3]);
     rs = (uint64_t) atol(argv[5]) * 0x9E3779B97F4A7C15ULL + (uint64_t) w * 131 + 5;
